@@ -581,6 +581,14 @@ class System:
             if not isinstance(comp, PMux):
                 raise ValueError("PMux cannot be changed to other type!")
 
+        # can only have one pmux
+        if (
+            comp._component_type == _ComponentTypes.PMUX
+            and self._g[eidx]._component_type != _ComponentTypes.PMUX
+            and self._get_pmux() != -1
+        ):
+            raise ValueError("a system can only have one PMux")
+
         # check that parent allows component type as child
         parents = self._get_parents()
         if parents[eidx] != -1:
